@@ -100,7 +100,7 @@ def calc_ns(nrow):
     return calc
 
 
-def metadata(cols, col_widths, page_by, subline_by, removed, nrow, add, new_page, width_of, calls=None):
+def metadata(cols, col_widths, page_by, subline_by, removed, nrow, add, new_page, width_of, calls=None, table_attrs=None):
     """real calculate_row_metadata (+ _calculate_header_rows + _assign_pages) on a FakeFrame.
     width_of(text, font, font_size) replaces get_string_width."""
     saved = (core.pl, core.get_string_width)
@@ -116,7 +116,7 @@ def metadata(cols, col_widths, page_by, subline_by, removed, nrow, add, new_page
         df = FakeFrame(cols)
         out = PBC.calculate_row_metadata(calc_ns(nrow), df, col_widths, page_by=page_by, subline_by=subline_by,
                                          removed_column_indices=removed, additional_rows_per_page=add,
-                                         new_page=new_page)
+                                         new_page=new_page, table_attrs=table_attrs)
         return out.to_dicts()
     finally:
         core.pl, core.get_string_width = saved
@@ -225,3 +225,30 @@ def chain(cols, page_by, heights, nrow, add, new_page, pageby_row, subline_by=No
         out = [x for x in PageRenderer.render(r, doc, page) if isinstance(x, tuple)]
         pages.append(out)
     return rows, pages
+
+
+DIV = "-----"
+
+
+def expected_meta(levels_keys, i, sub):
+    """statement-level expectation for row i of calculate_row_metadata; levels_keys = [keys of level 0, keys of level 1, ..]
+    returns (is_start, heading_rows, continuation_rows)"""
+    nlev = len(levels_keys)
+    key = lambda r: tuple(levels_keys[l][r] for l in range(nlev))
+    if i == 0:
+        first = 0
+    else:
+        diff = [l for l in range(nlev) if levels_keys[l][i] != levels_keys[l][i - 1]]
+        first = diff[0] if diff else None
+    start = first is not None
+    if sub:
+        # one heading paragraph naming the non-divider values
+        any_value = any(levels_keys[l][i] != DIV for l in range(nlev))
+        return start, (1 if (start and any_value) else 0), 0
+    if start:
+        hdr = sum(1 for l in range(first, nlev) if levels_keys[l][i] != DIV)
+        cont = sum(1 for l in range(0, first) if levels_keys[l][i] != DIV)
+    else:
+        hdr = 0
+        cont = sum(1 for l in range(nlev) if levels_keys[l][i] != DIV)
+    return start, hdr, cont
